@@ -423,6 +423,10 @@ def check(run: Run) -> None:
         from . import c06
         R.share(run, "C09.k", c06, ["C06.f"])
 
+    with run.obligation("C09.l", "K7", "a nested graph that starts samples every boundary input that has a value with the inlined node's own rule, valid() - never the "
+                        "stricter all_valid() (shared with C12.m)"):
+        from . import c12
+        R.share(run, "C09.l", c12, ["C12.m"])
 
 
 def HDRX(cn, tail):
